@@ -86,6 +86,7 @@ void World::exec_track_op(const Step& s)
     auto arg = [&](size_t i) { return i < s.a.size() ? s.a[i] : 0; };
     StepEffect e;
     e.op = s.op;
+    e.fault = s.fault;
     if (s.op == "create_track")
     {
         auto snap = gen_snapshot(s.vseed, s.size, plan.cfg.gf, ++uniq);
@@ -199,6 +200,7 @@ void World::exec_track_op(const Step& s)
             donor.relative_path = "set/path" + std::to_string(uniq) + ".mp3";
         e.prop = "C06";
         std::string fname = field_name(field);
+        e.op = "set_" + fname;
         e.out = call(s.fault, [&] { apply_setter(*slot.h, field, slot_idx, donor, val); });
         note("set " + fname + " on track " + std::to_string(slot.id) +
              (field >= F_HOT_CUE_AT ? " slot " + std::to_string(slot_idx) : "") +
@@ -302,6 +304,7 @@ void World::exec_crate_op(const Step& s)
     Rng r(s.vseed ^ 0xC4A7Eull);
     StepEffect e;
     e.op = s.op;
+    e.fault = s.fault;
     e.prop = "C07";
     bool allow_invalid = true;
     std::string name = gen_crate_name(r, plan.cfg.gf, allow_invalid);
@@ -549,6 +552,7 @@ void World::exec_member_op(const Step& s)
     auto arg = [&](size_t i) { return i < s.a.size() ? s.a[i] : 0; };
     StepEffect e;
     e.op = s.op;
+    e.fault = s.fault;
     e.prop = "C08";
     int cidx = pick_live_crate(arg(0));
     if (cidx < 0)
@@ -771,6 +775,7 @@ void World::exec_env_op(const Step& s)
 
 void World::exec_step(const Step& s)
 {
+    last_call = LastCall{};
     op_counts[s.op]++;
     log.str(s.op);
     gate_log.str(s.op);
